@@ -8,7 +8,7 @@ from __future__ import annotations
 
 from hashlib import sha256
 
-EXT = {'json_len': 'json', 'json_dict': 'json', 'json_list': 'json', 'str': 'json', 'int': 'json', 'numpy': 'npy', 'pandas': 'pd',
+EXT = {'figure': 'pickle', 'json_len': 'json', 'json_dict': 'json', 'json_list': 'json', 'str': 'json', 'int': 'json', 'numpy': 'npy', 'pandas': 'pd',
        'generator': 'jsonl', 'lazy': 'jsonl', 'listnp': None, 'dir': None, 'dir_link': None, 'continues': None, 'memory': None,
        'empty_gen': 'jsonl', 'empty_listnp': None, 'empty_dir': None}
 
